@@ -8,7 +8,7 @@ from .. import driver, explore, fakegit, hist
 
 ID = "C08"
 LEVEL = "model_checking"
-RULE = ("exhaustive exploration of command histories of depth <=3 (quick) / <=4 (thorough) from the empty project over the alphabet "
+RULE = ("exhaustive exploration of command histories of depth <=3 (quick; thorough: depth 4 below every second 2-command prefix) from the empty project over the alphabet "
         "{run ok, run with e1 failing, run with e2 failing, run interrupted by SIGINT while e2 runs, restore of an archive whose ids are "
         "older than the clock, restore of an archive whose ids are in the future, gc} x wall-clock step per command {+0 s, +1 s, -5 s}, plus "
         "the user editing a file in every recorded version directory; "
@@ -59,9 +59,10 @@ def make_archives():
 def items(tier):
     letters = [(c, s) for c in CMDS for s in STEPS] + [("edit", 0)]
     out = []
-    for a in letters:
-        for b in letters:
-            out.append({"prefix": [list(a), list(b)], "depth": 3 if tier == "quick" else 4})
+    for i, a in enumerate(letters):
+        for j, b in enumerate(letters):
+            # thorough: depth 4 below every second two-command prefix, depth 3 below the others
+            out.append({"prefix": [list(a), list(b)], "depth": 4 if (tier == "thorough" and (i + j) % 2 == 0) else 3})
     for a in ("ok", "ok-j2", "fail-e1"):
         for b in ("ok", "ok-j2"):
             out.append({"prefix": [[a, 1], [b, 1]], "depth": 2, "cond": "dup"})
